@@ -14,8 +14,9 @@ FAC = 1.2 * (6 * np.pi**2) ** (2.0 / 3) / np.pi     # turns (grad_mul, tau_mul) 
 # which spec classes are judged (None = counted only: tail-dominated kernels the docs call numerically hard)
 TOL_SPEC = {"se": 1, "se_ar2": 1, "se_a2r4": 1, "se_erf_rinv": 1, "se_ap": 1, "se_apr2": 1,
             "se_ap2r2": 1, "se_lapl": 1, "se_r2": None, "k": 1, "dot_grad": 1, "dot_rvec": None}
+EXCLUDE_KNOWN = {"sdmx_1d_definition"}     # regions of open known findings (generated cases avoid them, counted)
 TOL = {"definition_panel_median": 4e-2, "definition_worst_point_rel_to_max": 0.25, "fast_interpolators_vs_train_gen": 2e-3, "gaussian_vs_spline_plan": 0.2, "sdmx_fast_vs_slow": 1e-6,
-       "sdmx_definition": 8e-2}
+       "sdmx_definition": "4e-2, judged only where two refinements of the auxiliary ladder agree within a quarter of that"}
 
 
 # ------------------------------------------------------------------------------------------------
@@ -304,39 +305,88 @@ def sdmx_h(u2, R):
     return (2.0 / np.pi) ** 1.5 * 4.0 / (4.0 - np.sqrt(2.0)) * np.exp(-x) / R**3 * (1.0 - np.exp(-x))
 
 
-def sdmx_reference(mol, dm, pts, pows, nd=0, nR=140, ns=28, lebedev=13):
-    """H_j^0 and H_j^0d from the definition in sdmx.rst.  rho^0(R; r) = int d^3u h(|u|; R) n_1(r+u, r) is evaluated in
-    spherical coordinates *around the probe point* (u = R s Omega: Gauss-Legendre in s on [0, 3.6] where h has decayed
-    to e^-26, Lebedev rule of degree 13 in Omega), so every R is resolved equally well; then a trapezoid rule on a
-    logarithmic R grid.  The repository's convention multiplies the documented feature by -1/4."""
+def sdmx_reference(mol, dm, pts, pows, nd=0, nR=200, ns=48, lebedev=23, terms=None):
+    """H_j^0, H_j^0d (and, with `terms`, H_j^1 / H_j^1d) from the definitions in sdmx.rst.  rho^0(R; r) = int d^3u h(|u|; R)
+    n_1(r+u, r) and rho^1(R; r) = int d^3r' [grad_r h(|r'-r|; R)] n_1(r', r) = -int d^3u h'(|u|; R) u/|u| n_1(r+u, r) are
+    evaluated in spherical coordinates *around the probe point* (u = R s Omega: Gauss-Legendre in s on [0, 3.6] where h has
+    decayed to e^-26, Lebedev rule in Omega), so every R is resolved equally well; then a trapezoid rule on a logarithmic
+    R grid.  The repository's convention multiplies the documented feature by -1/4.
+
+    terms: list of (kind, j) with kind in {"0", "0d", "1", "1d", "1d_code"}; default: the l=0 list of (pows, nd).
+    "1d" is the documented 4 pi int dR R^(6-j) |d rho^1/dR|^2, "1d_code" is 4 pi int dR R^(4-j) |d(R rho^1)/dR|^2."""
     from pyscf.dft import numint
     from scipy.integrate import lebedev_rule
 
+    if terms is None:
+        terms = [("0", j) for j in pows] + [("0d", j) for j in pows[:nd]]
+    need1 = any(k.startswith("1") for k, _ in terms)
     om, wom = lebedev_rule(lebedev)          # (3, M), weights sum to 4 pi
     sk, wk = np.polynomial.legendre.leggauss(ns)
     smax = 3.6
     sk = 0.5 * smax * (sk + 1.0)
     wk = 0.5 * smax * wk
     c = (2.0 / np.pi) ** 1.5 * 4.0 / (4.0 - np.sqrt(2.0))
-    gk = c * np.exp(-2 * sk**2) * (1.0 - np.exp(-2 * sk**2)) * sk**2 * wk     # h(R s; R) R^3 s^2 ds
+    e1 = np.exp(-2 * sk**2)
+    gk = c * e1 * (1.0 - e1) * sk**2 * wk     # h(R s; R) R^3 s^2 ds
+    dgk = c * (-e1 + 2 * e1**2) * 4 * sk * sk**2 * wk     # h'(R s; R) R^4 s^2 ds
     t = np.linspace(np.log(4e-3), np.log(50.0), nR)
     Rs = np.exp(t)
     ao_p = numint.eval_ao(mol, pts)
     rho0 = np.empty((nR, len(pts)))
+    rho1 = np.zeros((nR, 3, len(pts)))
+    # quadrature orders from a convergence study on the cases that the first version of this reference (140 x 28 x
+    # Lebedev-13) got wrong by 9-27 %: 200 x 48 x Lebedev-23 agrees with 260 x 64 x Lebedev-35 to 1.3e-2 (the angular
+    # integrand has a sharp feature when the sphere |u| = R s passes a nucleus)
     for ip in range(len(pts)):
-        u = (Rs[:, None, None, None] * sk[None, :, None, None] * om.T[None, None, :, :]).reshape(-1, 3)
-        ao = numint.eval_ao(mol, pts[ip][None, :] + u)
-        n1 = (ao @ (dm @ ao_p[ip])).reshape(nR, ns, -1)
-        rho0[:, ip] = np.einsum("k,rkm,m->r", gk, n1, wom)
+        for r0 in range(0, nR, 25):          # chunks of R values: bounded memory
+            Rc = Rs[r0:r0 + 25]
+            u = (Rc[:, None, None, None] * sk[None, :, None, None] * om.T[None, None, :, :]).reshape(-1, 3)
+            ao = numint.eval_ao(mol, pts[ip][None, :] + u)
+            n1 = (ao @ (dm @ ao_p[ip])).reshape(len(Rc), ns, -1)
+            rho0[r0:r0 + 25, ip] = np.einsum("k,rkm,m->r", gk, n1, wom)
+            if need1:
+                rho1[r0:r0 + 25, :, ip] = -np.einsum("k,rkm,m,xm->rx", dgk, n1, wom, om) / Rc[:, None]
     drho0 = np.gradient(rho0, t, axis=0) / Rs[:, None]          # d/dR
+    drho1 = np.gradient(rho1, t, axis=0) / Rs[:, None, None]
+    dRrho1 = np.gradient(rho1 * Rs[:, None, None], t, axis=0) / Rs[:, None, None]
     out = []
-    for j in pows:
-        f = 4 * np.pi * Rs[:, None] ** (2 - j) * rho0**2 * Rs[:, None]     # dR = R dt
-        out.append(-0.25 * np.trapezoid(f, t, axis=0))
-    for j in pows[:nd]:
-        f = 4 * np.pi * Rs[:, None] ** (4 - j) * drho0**2 * Rs[:, None]
-        out.append(-0.25 * np.trapezoid(f, t, axis=0))
+    R = Rs[:, None]
+    for kind, j in terms:
+        if kind == "0":
+            f = R ** (2 - j) * rho0**2
+        elif kind == "0d":
+            f = R ** (4 - j) * drho0**2
+        elif kind == "1":
+            f = R ** (4 - j) * (rho1**2).sum(1)
+        elif kind == "1d":
+            f = R ** (6 - j) * (drho1**2).sum(1)
+        elif kind == "1d_code":
+            f = R ** (4 - j) * (dRrho1**2).sum(1)
+        else:
+            raise ValueError(kind)
+        out.append(-0.25 * np.trapezoid(4 * np.pi * f * R, t, axis=0))     # dR = R dt
     return np.array(out)
+
+
+def sdmx_terms(spec):
+    """(kind, j) per feature, in the order the settings classes lay the features out; None where the documented
+    definition does not apply directly (SDMXFullSettings with a ratio other than 1)."""
+    c, pows = spec["cls"], spec["pows"]
+    if c == "SDMX":
+        return [("0", j) for j in pows]
+    if c == "G":
+        return [("0", j) for j in pows] + [("0d", j) for j in pows[: spec["nd"]]]
+    if c == "1":
+        return [("0", j) for j in pows] + [("1", j) for j in pows[: spec["n1"]]]
+    if c == "G1":
+        return [("0", j) for j in pows] + [("0d", j) for j in pows[: spec["nd"]]] + [("1", j) for j in pows[: spec["n1"]]]
+    if c == "Full":
+        if sorted(float(k) for k in spec["full"]) != [1.0]:
+            return None
+        pw, cnt = spec["full"][[k for k in spec["full"]][0]]
+        return ([("0", j) for j in pw[: cnt[0]]] + [("0d", j) for j in pw[: cnt[1]]] + [("1", j) for j in pw[: cnt[2]]]
+                + [("1d", j) for j in pw[: cnt[3]]])
+    raise ValueError(c)
 
 
 @st.composite
@@ -349,10 +399,11 @@ def st_sdmx_case(draw):
 @subcheck("C02", "sdmx_fast_vs_slow_and_definition", st_sdmx_case, quick=64, thorough=800, tolerances=TOL, shrink=False,
           rule="G-mol x PSD dm (restricted or both spin channels) x every SDMX settings class: (1) the fast generator "
                "(pyscf.sdmx) and the reference-grade slow generator (pyscf.sdmx_slow) agree at drawn points to 1e-6 of the "
-               "feature maximum; (2) for SDMXSettings / SDMXGSettings the l=0 features H_j^0 and H_j^0d equal, within 8e-2, a "
-               "direct quadrature of the definition in docs/features/sdmx.rst (rho^0(R; r) with the documented h(u; R) by "
+               "feature maximum; (2) for every settings class whose features the documentation defines (SDMX, G, 1, G1, and Full with the "
+               "single ratio 1) the features H_j^0, H_j^0d, H_j^1, H_j^1d equal within 4e-2 -- where two successive refinements of the auxiliary exponent ladder (smallest exponent /16 and /64) agree within a quarter of that tolerance, otherwise the comparison is counted unresolved -- a "
+               "direct quadrature of the definition in docs/features/sdmx.rst (rho^0(R; r) and the vector rho^1(R; r) with the documented h(u; R) by "
                "Gauss-Legendre x Lebedev quadrature around the probe point, 1-D log-grid integral over R, times the code's -1/4 convention which is itself tied to the "
-               "UEG constants by C13), using a refined auxiliary ladder (smallest exponent/16; measured error <= 2.6e-2 with segmented bases, 5.4e-2 with cc-pVDZ whose tight core primitives the ladder resolves less well; tolerance 8e-2), "
+               "UEG constants by C13), using a refined auxiliary ladder (smallest exponent/16; measured error <= 2.6e-2 with segmented bases, 5.4e-2 with cc-pVDZ whose tight core primitives the ladder resolves less well; histogram over 2300 feature comparisons in the evidence classes `sdmx_definition_error:*`: 90% below 2e-2, largest 0.092 for l=0 and 0.125 for l=1 terms; the documented-vs-implemented H^1d discrepancy recorded as a known finding is 0.33-0.59), "
                "and the refined ladder is not further from the definition than the default one (controllable truncation); "
                "non-trivial = some |feature| > 1e-6")
 def sdmx_fast_vs_slow_and_definition(case, ctx):
@@ -381,8 +432,8 @@ def sdmx_fast_vs_slow_and_definition(case, ctx):
             sc = float(np.max(np.abs(fs[:, k]))) + 1e-300
             ctx.close(f[:, k], fs[:, k], ("fast_vs_slow", case["sdmx"]["cls"], "l1" if k >= gen.plan.num_l0_feat else "l0"),
                       rtol=1e-6, scale=sc, feature=k)
-    if case["sdmx"]["cls"] in ("SDMX", "G"):
-        nd = case["sdmx"].get("nd", 0)
+    terms = sdmx_terms(case["sdmx"])
+    if terms is not None:
         # the definition is compared with a REFINED auxiliary expansion (smallest exponent / 16, same ratio 1.8; a
         # denser ratio 1.5 with ~48 exponents makes the overlap fit ill-conditioned and is NOT a refinement): the default
         # ladder's lower end is tuned for speed and under-represents rho^0(R) at large R for compact systems (H_0^0 of
@@ -390,19 +441,46 @@ def sdmx_fast_vs_slow_and_definition(case, ctx):
         # ladder must not be further from the definition than the default one
         gref = fast_mod.EXXSphGenerator.from_settings_and_mol(settings, nspin, mol, alpha0=gen.plan.alpha0 / 16.0, lambd=1.8)
         fr = np.array(gref.get_features(arg, mol, pts), copy=True).reshape(nspin, settings.nfeat, -1)
+        # resolution rule (the analogue of the two-step finite-difference rule): a second refinement (smallest exponent / 64);
+        # a feature whose two refined values still differ by more than a quarter of the tolerance is limited by the
+        # auxiliary expansion, not by the implementation of the definition: counted `ladder_unresolved`, not judged
+        gref2 = fast_mod.EXXSphGenerator.from_settings_and_mol(settings, nspin, mol, alpha0=gen.plan.alpha0 / 64.0, lambd=1.8)
+        fr2 = np.array(gref2.get_features(arg, mol, pts), copy=True).reshape(nspin, settings.nfeat, -1)
         fdef = f
         f = fr
+        # the reference quadrature costs ~2e6 orbital evaluations per probe point: the first 6 points are compared
+        nq = min(6, len(pts))
+        pts_q = np.ascontiguousarray(pts[:nq])
+        f, fdef, fr, fr2 = f[:, :, :nq], fdef[:, :, :nq], fr[:, :, :nq], fr2[:, :, :nq]
         for s in range(nspin):
             # spin convention: features of channel s are those of the spin-summed matrix 2 * dm_s
             dm_s = dms[s] * (2.0 if nspin == 2 else 1.0)
-            ref = sdmx_reference(mol, dm_s, pts, case["sdmx"]["pows"], nd=nd)
+            ref = sdmx_reference(mol, dm_s, pts_q, case["sdmx"]["pows"], terms=terms)
             for k in range(ref.shape[0]):
                 sc = float(np.max(np.abs(ref[k]))) + 1e-300
                 err = float(np.max(np.abs(f[s, k] - ref[k]))) / sc
-                lab = "H0" if k < len(case["sdmx"]["pows"]) else "H0d"
+                lab = "H" + terms[k][0]
+                if lab == "H1d" and "sdmx_1d_definition" in EXCLUDE_KNOWN and "sdmx_1d_definition" not in case.get("allow", []):
+                    # open finding K-C02-sdmx-1d-definition: the code computes 4 pi int R^(4-j) |d(R rho^1)/dR|^2, the
+                    # documentation states 4 pi int R^(6-j) |d rho^1/dR|^2 (they differ by (4-j) H_j^1); the generated
+                    # case is judged against the formula the code implements and the exclusion is counted
+                    ctx.event("excluded_known:sdmx_1d_definition")
+                    ref[k] = sdmx_reference(mol, dm_s, pts_q, case["sdmx"]["pows"], terms=[("1d_code", terms[k][1])])[0]
+                    sc = float(np.max(np.abs(ref[k]))) + 1e-300
+                    err = float(np.max(np.abs(f[s, k] - ref[k]))) / sc
                 err_def = float(np.max(np.abs(fdef[s, k] - ref[k]))) / sc
-                ctx.measure("sdmx_definition/" + lab, err / 8e-2)
+                tol_def = 4e-2
+                spread = float(np.max(np.abs(fr[s, k] - fr2[s, k]))) / sc
+                if spread > 0.25 * tol_def:
+                    ctx.unresolved_fd("ladder_unresolved:" + lab)
+                    ctx.event("sdmx_definition_error:%s:%s:unresolved" % (case["sdmx"]["cls"], lab))
+                    continue
+                ctx.decided["sdmx_definition/" + lab] = ctx.decided.get("sdmx_definition/" + lab, 0) + 1
+                ctx.measure("sdmx_definition/" + lab, err / tol_def)
+                ctx.event("sdmx_definition_error:%s:%s:%s" % (case["sdmx"]["cls"], lab, "<1e-2" if err < 1e-2 else "<2e-2" if err < 2e-2 else
+                                                              "<4e-2" if err < 4e-2 else "<8e-2" if err < 8e-2 else "<0.16" if err < 0.16 else ">=0.16"))
                 ctx.measure("sdmx_default_ladder_error/" + lab, err_def)
-                ctx.check(err <= 8e-2, ("sdmx_definition", lab, "nspin%d" % nspin), err=err, feature=k,
+                ctx.check(err <= tol_def, ("sdmx_definition", lab + ("_as_documented" if lab == "H1d" and "sdmx_1d_definition" in case.get("allow", []) else ""),
+                                           "nspin%d" % nspin), err=err, feature=k,
                           pows=case["sdmx"]["pows"])
-                ctx.check(err <= err_def + 5e-3, ("sdmx_refinement_made_it_worse", lab), err_refined=err, err_default=err_def)
+                ctx.check(err <= err_def + 1e-2, ("sdmx_refinement_made_it_worse", lab), err_refined=err, err_default=err_def)
